@@ -590,6 +590,49 @@ func litABFamily(full bool) []Pat {
 	return finalize("LITAB", trees, map[string]bool{}, false)
 }
 
+// ---- LOOK3: lookarounds whose body is a literal of two letters next to a single-character or class loop that can
+// take the literal's neighbouring letter, followed by something that forces the loop to give it back ----
+
+func look3Family() []Pat {
+	lits := []string{"ab", "ba", "aa", "ca", "ac"}
+	loops := []*Node{rep(set(false, 'a', 'b'), 0, -1, false), rep(set(true, 'c'), 0, -1, false), rep(set(true, 'a'), 0, -1, false), rep(lit('a'), 0, -1, false), rep(lit('b'), 1, -1, false),
+		rep(set(false, 'a', 'b'), 0, -1, true), rep(anyc(), 0, -1, false)}
+	posts := []*Node{lit('c'), lit('a'), lit('b'), nil}
+	var trees []*Node
+	for _, l := range lits {
+		for _, lp := range loops {
+			for _, order := range []int{0, 1} {
+				var body *Node
+				if order == 0 {
+					body = cat(litStr(l), lp)
+				} else {
+					body = cat(lp, litStr(l))
+				}
+				for _, ah := range []bool{false, true} {
+					for _, ng := range []bool{false, true} {
+						lk := look(ah, ng, body)
+						for _, po := range posts {
+							if ah {
+								trees = append(trees, cat(lk, rep(anyc(), 0, -1, false), po))
+							} else {
+								trees = append(trees, cat(rep(anyc(), 0, -1, true), lk, po))
+								trees = append(trees, cat(lk, po))
+							}
+						}
+					}
+				}
+			}
+		}
+	}
+	var keep []*Node
+	for _, t := range trees {
+		if inC01Fragment(t) {
+			keep = append(keep, t)
+		}
+	}
+	return finalize("LOOK3", keep, map[string]bool{}, false)
+}
+
 // ---- LOOPALT: counted group loops (greedy and lazy, minimum >= 2 included) whose body is an alternation of
 // literals of different lengths: an iteration can be re-matched through another branch after a later one failed,
 // which is where the iteration counters have to be restored exactly ----
